@@ -176,6 +176,64 @@ Proof.
           pose proof (pcount_link_of c') as Hlo; rewrite pcount_mk, (pcount_n n), Ees, !psum_app; lia.
 Qed.
 
+(** merge adds at most one node per level *)
+Lemma merge_count : forall fuel (a b : link), allh_l K V P a -> allh_l K V P b ->
+  okp (merge _ _ fuel a b) (fun m => pcount_l m <= pcount_l a + pcount_l b + fuel).
+Proof.
+  induction fuel as [|f IH]; intros a b Ha Hb.
+  - destruct a as [|ca|ha ca|ha]; [apply okp_ret; cbn; lia|..]; (destruct b as [|cb|hb cb|hb]; [apply okp_ret; cbn; lia|..]); cbn [merge]; apply okp_nofuel.
+  - destruct a as [|ca|ha ca|ha] eqn:Ea; [cbn [merge]; apply okp_ret; cbn; lia|..]; (destruct b as [|cb|hb cb|hb] eqn:Eb; [cbn [merge]; apply okp_ret; cbn; lia|..]); try (inversion Ha; fail); try (inversion Hb; fail).
+    all: rewrite <- Ea, <- Eb in *; assert (Hm : merge _ _ (S f) a b =
+          (let* na := load _ _ a in let* nb := load _ _ b in
+           let* m := merge _ _ f (last_link _ _ (n_l0 _ _ na) (n_es _ _ na)) (n_l0 _ _ nb) in
+           let (l0', aes') := set_last_link _ _ (n_l0 _ _ na) (n_es _ _ na) m in
+           ret (LPtr (mk_dirty _ _ l0' (aes' ++ n_es _ _ nb))))) by (subst a b; reflexivity).
+    all: rewrite Hm; clear Hm.
+    all: apply (okp_bind _ _ _ _ (load_count a Ha)); intros na (Hna & Hla & Hca).
+    all: apply (okp_bind _ _ _ _ (load_count b Hb)); intros nb (Hnb & Hlb & Hcb).
+    all: destruct (allh_inv _ _ _ _ Hna) as [Ha0 Haes]; destruct (allh_inv _ _ _ _ Hnb) as [Hb0 Hbes].
+    all: assert (Hlast : allh_l K V P (last_link _ _ (n_l0 _ _ na) (n_es _ _ na))) by (apply last_link_ok; assumption).
+    all: apply (okp_bind _ _ _ _ (IH _ _ Hlast Hb0)); intros m Hmc.
+    all: pose proof (set_last_sum (n_es _ _ na) (n_l0 _ _ na) m) as Hset.
+    all: destruct (set_last_link _ _ (n_l0 _ _ na) (n_es _ _ na) m) as [l0' aes']; cbn [fst snd] in Hset.
+    all: apply okp_ret; cbn [pcount_l]; rewrite pcount_mk, psum_app.
+    all: rewrite (pcount_n na) in *; rewrite (pcount_n nb) in *.
+    all: destruct Hca as [Hza|Hza]; destruct Hcb as [Hzb|Hzb]; lia.
+Qed.
+
+(** a delete at level cur adds at most cur pointer-reachable nodes *)
+Lemma del_count : forall fuel cur target k v (n : node), allh K V P n -> fuel = S cur ->
+  okp (del _ _ cmp veq fuel cur target k v n) (fun n' => pcount n' <= pcount n + cur).
+Proof.
+  induction fuel as [|f IH]; intros cur target k v n Hn Hf; [lia|]. assert (Hfc : f = cur) by lia. subst f. clear Hf. cbn [del]. apply okp_tick.
+  destruct (span_lt _ _ cmp k (n_es _ _ n)) as [les rs] eqn:Esp.
+  assert (Ees : n_es _ _ n = les ++ rs).
+  { clear -Esp. revert les rs Esp. induction (n_es _ _ n) as [|e r IHr]; intros les rs E; cbn [span_lt] in E; [inversion E; reflexivity|].
+    destruct (klt _ cmp (ekey _ _ e) k); [|inversion E; reflexivity].
+    destruct (span_lt _ _ cmp k r) as [a b]. inversion E; subst. cbn [app]. f_equal. apply IHr. reflexivity. }
+  destruct (allh_inv _ _ _ _ Hn) as [H0 Hes]. rewrite Ees in Hes. apply Forall_app in Hes. destruct Hes as [Hles Hrs].
+  set (child := last_link _ _ (n_l0 _ _ n) les).
+  assert (Hchild : allh_l K V P child) by (unfold child; apply last_link_ok; assumption).
+  destruct (hits _ _ cmp k rs).
+  - destruct (negb (Nat.eqb cur target)); [apply okp_fail|]. destruct rs as [|[[k' v'] l] rs']; [apply okp_fail|].
+    destruct (veq v' v); [|apply okp_fail]. inversion Hrs as [|? ? Hl Hrs']; subst. cbn [elink snd] in Hl.
+    apply (okp_bind _ _ _ _ (merge_count cur child l Hchild Hl)). intros m Hm.
+    pose proof (set_last_sum les (n_l0 _ _ n) m) as Hset. fold child in Hset.
+    destruct (set_last_link _ _ (n_l0 _ _ n) les m) as [l0' les']. cbn [fst snd] in Hset.
+    apply okp_ret. rewrite pcount_mk, (pcount_n n), Ees, !psum_app, psum_cons. cbn [elink snd]. lia.
+  - destruct (Nat.eqb cur target); [apply okp_fail|].
+    destruct child as [|c0|h c0|h] eqn:Ec; [apply okp_fail|..]; try (inversion Hchild; fail).
+    all: rewrite <- Ec in *.
+    all: apply (okp_bind _ _ _ _ (load_count child Hchild)); intros c (Hc & Hle & Hcases).
+    all: (destruct cur as [|cur']; [apply (okp_bind _ _ (fun _ => False)); [apply okp_nofuel|intros r []]|]).
+    all: cbn [Nat.sub]; replace (cur' - 0) with cur' by lia.
+    all: apply (okp_bind _ _ _ _ (IH cur' target k v c Hc ltac:(lia))); intros c' Hc'.
+    all: pose proof (set_last_sum les (n_l0 _ _ n) (link_of _ _ c')) as Hset; fold child in Hset.
+    all: destruct (set_last_link _ _ (n_l0 _ _ n) les (link_of _ _ c')) as [l0' les']; cbn [fst snd] in Hset.
+    all: apply okp_ret; pose proof (pcount_link_of c') as Hlo; rewrite pcount_mk, (pcount_n n), Ees, !psum_app.
+    all: destruct Hcases as [Hz|Hz]; lia.
+Qed.
+
 Variable layer : K -> nat.
 
 Lemma grow_loop_height : forall fuel root0 (m : mast K V),
@@ -194,14 +252,14 @@ Qed.
     than the root node it started from *)
 Theorem insert_count (m : mast K V) k v : allh_l K V P (m_root _ _ m) ->
   okp (insert _ _ cmp veq layer m k v)
-      (fun m' => m_height _ _ m' = m_height _ _ m -> pcount_l (m_root _ _ m') <= pcount_l (m_root _ _ m) + 1 + 2 * m_height _ _ m).
+      (fun m' => m_height _ _ m' = m_height _ _ m -> pcount_l (m_root _ _ m') <= Nat.max 1 (pcount_l (m_root _ _ m)) + 2 * m_height _ _ m).
 Proof.
   intros Hr. unfold insert. apply okp_tick.
-  apply (okp_bind _ _ (fun n => allh K V P n /\ pcount n <= pcount_l (m_root _ _ m) + 1)).
+  apply (okp_bind _ _ (fun n => allh K V P n /\ pcount n <= Nat.max 1 (pcount_l (m_root _ _ m)))).
   { destruct (m_root _ _ m) as [|c|h c|h] eqn:Er.
     - apply okp_ret. split; [apply allh_fresh|cbn; lia].
-    - intros t n E. destruct (load_count _ Hr t n E) as (A & B & _). split; assumption.
-    - intros t n E. destruct (load_count _ Hr t n E) as (A & B & _). split; assumption.
+    - intros t n E. destruct (load_count _ Hr t n E) as (A & B & [C|C]); (split; [assumption|lia]).
+    - intros t n E. destruct (load_count _ Hr t n E) as (A & B & [C|C]); (split; [assumption|lia]).
     - inversion Hr. }
   intros n [Hn Hle].
   apply (okp_bind _ _ _ _ (ins_count (S (m_height _ _ m)) (m_height _ _ m) _ k v n Hn eq_refl)). intros r Hc.
@@ -212,6 +270,36 @@ Proof.
     + apply okp_ret. intros _. cbn [set_size m_root]. unfold root_of_node. destruct (is_empty _ _ n'); cbn [set_root m_root pcount_l]; lia.
     + apply okp_ret. cbn [set_size m_height]. intros He. exfalso.
       assert (m_height _ _ (root_of_node _ _ m n') = m_height _ _ m) by (unfold root_of_node; destruct (is_empty _ _ n'); reflexivity). lia.
+Qed.
+
+Lemma shrink_loop_height : forall fuel (m : mast K V),
+  okp (shrink_loop _ _ fuel m) (fun m' => m' = m \/ m_height _ _ m' < m_height _ _ m).
+Proof.
+  induction fuel as [|f IH]; intros m; [apply okp_nofuel|]. cbn [shrink_loop].
+  destruct (_ && _)%bool; [|apply okp_ret; left; reflexivity].
+  apply (okp_bind _ _ (fun m1 => S (m_height _ _ m1) = m_height _ _ m)).
+  - unfold shrink. destruct (m_height _ _ m) as [|hh]; [apply okp_fail|]. destruct (m_root _ _ m) as [|rc|rh rc|rh]; [apply okp_fail|..];
+      (apply (okp_bind _ _ (fun _ => True)); [intros ? ? _; exact I|]; intros n0 _;
+       apply (okp_bind _ _ (fun _ => True)); [intros ? ? _; exact I|]; intros n' _;
+       destruct (1 <? m_shrink_below _ _ m)%N; apply okp_ret; reflexivity).
+  - intros m1 H1 t m' E. right. destruct (IH m1 t m' E) as [->|H]; lia.
+Qed.
+
+(** a Delete that does not change the height leaves at most height more pointer-reachable nodes than
+    the root node it started from *)
+Theorem delete_count (m : mast K V) k v : allh_l K V P (m_root _ _ m) ->
+  okp (delete _ _ cmp veq layer m k v)
+      (fun m' => m_height _ _ m' = m_height _ _ m -> pcount_l (m_root _ _ m') <= Nat.max 1 (pcount_l (m_root _ _ m)) + m_height _ _ m).
+Proof.
+  intros Hr. unfold delete. destruct (m_root _ _ m) as [|c|h c|h] eqn:Er; [apply okp_fail|..]; try (inversion Hr; fail).
+  all: rewrite <- Er in *; apply okp_tick.
+  all: apply (okp_bind _ _ _ _ (load_count _ Hr)); intros n (Hn & Hle & Hcs).
+  all: apply (okp_bind _ _ _ _ (del_count (S (m_height _ _ m)) (m_height _ _ m) _ k v n Hn eq_refl)); intros n' Hc.
+  all: apply okp_tick.
+  all: intros t m2 E; destruct (shrink_loop_height max_layer_fuel _ t m2 E) as [->|Hlt].
+  all: try (cbn [set_size m_root]; intros _; unfold root_of_node; destruct (is_empty _ _ n'); cbn [set_root m_root pcount_l]; destruct Hcs; lia).
+  all: intros He; exfalso; cbn [set_size m_height] in Hlt.
+  all: assert (m_height _ _ (root_of_node _ _ m n') = m_height _ _ m) by (unfold root_of_node; destruct (is_empty _ _ n'); reflexivity); lia.
 Qed.
 
 End COSTW.
